@@ -3,6 +3,7 @@
 -/
 import GffModel.Proto
 import GffModel.Interface
+import GffModel.Export
 
 namespace GffModel
 namespace ProtoDb
@@ -221,6 +222,23 @@ def step (w : World) (ws : List String) : Option (World × String) :=
           match update s (c.toCfg imp d) fs with
           | .ok s' => ({ sess := some s' }, "ok")
           | .error e => ({ sess := none }, encErr e)))
+  | ["bed12", id, block, thick, thin, nf, color] => do
+      let id ← Str.decode? id; let block ← decList? block; let thick ← decList? thick; let thin ← decList? thin
+      let nf ← Str.decode? nf; let color ← decStrOpt? color
+      pure (withSess w (fun s => match Export.bed12 s id block thick thin nf color with
+        | .ok t => (w, "ok " ++ Str.encode t)
+        | .error e => (w, encErr e)))
+  | ["tobed12", id, ct, nf] => do
+      let id ← Str.decode? id; let ct ← Str.decode? ct; let nf ← Str.decode? nf
+      pure (withSess w (fun s => match Export.toBed12 s id ct nf with
+        | .ok t => (w, "ok " ++ Str.encode t)
+        | .error e => (w, encErr e)))
+  | ["seq", fastaSeq, seqid, st, en, sd, us] => do
+      let fs ← Str.decode? fastaSeq; let sq ← Str.decode? seqid; let st ← decOptInt? st; let en ← decOptInt? en
+      let sd ← Str.decode? sd; let us ← parseBool us
+      pure (w, match Export.sequence [(sq, fs)] sq st en sd us with
+        | .ok t => "ok " ++ Str.encode t
+        | .error e => encErr e)
   | _ => none
 
 end ProtoDb
